@@ -23,6 +23,42 @@ def ensureDefaults (batch : Int) (gasLimit overhead : Nat) : Cfg :=
     gasLimit := if gasLimit = 0 then 5300000 else gasLimit,
     overhead := if overhead = 0 then 300000 else overhead }
 
+/-- the three members of the off-chain configuration DOCUMENT that `Reports` depends on, as they are on the wire: a
+member may be absent (or `null`, which the JSON decoder treats the same way: the target field is not written) -/
+structure WireCfg where
+  batch    : Option Int
+  gasLimit : Option Nat
+  overhead : Option Nat
+deriving DecidableEq, Repr
+
+/-- the Go struct the document is decoded into (before defaults): three plain fields -/
+structure RawCfg where
+  batch    : Int
+  gasLimit : Nat
+  overhead : Nat
+deriving DecidableEq, Repr
+
+/-- `json.Unmarshal(doc, &target)`: a member that occurs in the document overwrites the field, an absent (or null)
+member leaves the field of the TARGET as it was -/
+def unmarshalInto (target : RawCfg) (doc : WireCfg) : RawCfg :=
+  { batch := doc.batch.getD target.batch,
+    gasLimit := doc.gasLimit.getD target.gasLimit,
+    overhead := doc.overhead.getD target.overhead }
+
+def rawZero : RawCfg := { batch := 0, gasLimit := 0, overhead := 0 }
+
+/-- `config.DecodeOffchainConfig`: unmarshal into a FRESH zero value, then `ensureMinimumDefaults`. The configuration
+of an instance is a function of its own document and of nothing else. -/
+def decodeCfg (doc : WireCfg) : Cfg :=
+  let raw := unmarshalInto rawZero doc
+  ensureDefaults raw.batch raw.gasLimit raw.overhead
+
+/-- what a factory does that keeps ONE configuration value and decodes every new document into it (not what the code
+does — Props/C04 shows why it must not): the result depends on the documents seen before -/
+def decodeRetained (held : RawCfg) (doc : WireCfg) : Cfg :=
+  let raw := unmarshalInto held doc
+  ensureDefaults raw.batch raw.gasLimit raw.overhead
+
 /-- the flush condition of the loop, as in the code after `fix: reports: never flush an empty batch on gas` -/
 def flush (cfg : Cfg) (cur : List CheckResult) (gas : Nat) (r : CheckResult) : Bool :=
   decide (cur.length ≥ cfg.batch) ||
